@@ -26,7 +26,11 @@ a sibling, of the subclass have been compared before C's instances ever are; cla
 only honoured when ordering is requested explicitly for C, so that the base's definition never applies to C),
 `opts` per field, own or inherited (kw_only, init=False, alias, repr, hash, metadata, converter / validator present,
 default value / factory: none of them is ordering's business -- the order tuple stays in field order with the same
-participants and keys; instances are built through whatever __init__ results, init=False fields set behind it).
+participants and keys; instances are built through whatever __init__ results, init=False fields set behind it),
+`hashes` per field (what hash() does on each operand's value: unhashable / by identity / a number shared with other
+values, as 1, True and 1.0 share theirs -- so that nothing can be remembered about a value, or shared between
+values that are equal or hash alike, without showing).  Also observed: the applications of the key functions during
+each direct call (`keys`): every keyed order field's key is applied to self's value, then to other's, on every call.
 
 Observed: the class-level call's error kind, the fields whose attr.ib() raised ValueError, where each of the
 four methods of C comes from (attrs-generated in C / user's / inherited attrs-generated / object's), the
@@ -59,7 +63,8 @@ RULE = ("cases = class-level (api x cmp x eq x order x auto_detect x own orderin
         "inherited/own field counts x key shapes, with overriding redefinitions), truthiness of key results (block: 7 key shapes "
         "x {true,false,raises}^2 per operand), field options that must not matter (block: kw_only/init/alias/repr/hash/metadata/converter/"
         "validator/default singly and mixed x first/second/inherited/all fields x 3 front-ends, fields disagreeing in direction), "
-        "all three as random decoration of every other block; field names permuted; non-trivial = class built, ordering generated, and "
+        "hashable values (block memo: key shapes x earlier life none/rekey/rebind/evolve/copy x hash by identity / shared number / "
+        "unhashable), all four as random decoration of every other block; field names permuted; non-trivial = class built, ordering generated, and "
         "(other-class operand or at least one value comparison performed); distinct = distinct JSON case")
 ASSUMPTIONS = [
     "the values' reflected comparisons agree (yv > xv is xv < yv, yv == xv is xv == yv), as Python's data model asks: y-side scripted values answer with the mirror of the script; the trace records which value was compared with == / an ordering operator, not by which side",
@@ -69,7 +74,7 @@ ASSUMPTIONS = [
     "exception classes (auto_exc) and field redefinition in subclasses are not varied here (C14 / C07)",
 ]
 EXHAUSTIVE = {"quick": False, "thorough": False}
-BUDGET_S = {"quick": 34, "thorough": 380}
+BUDGET_S = {"quick": 32, "thorough": 380}
 TABLES = ["attrsKw", "defineKw"]
 PARALLEL = True
 
@@ -108,7 +113,14 @@ class V:
     """a scripted value: raw field value or keyed value.  x's values answer with the script, y's values
     with its mirror (reflected comparisons agree); the log records which value was compared how
     (`tag:eq` for ==, `tag:ord` for an ordering operator), not by which side"""
-    __hash__ = None
+    def __hash__(self):
+        # scripted hashability (must never matter for ordering): unhashable / by identity / a given number, so that
+        # distinct values can share a hash the way 1, True and 1.0 do
+        if self.hashv is None:
+            raise TypeError("unhashable scripted value")
+        return id(self) >> 4 if self.hashv == "id" else self.hashv
+
+    hashv = None
 
     def __init__(self, tag, script):
         self.tag, self.script = tag, script
@@ -153,15 +165,21 @@ class V:
         return self._do("ge", other)
 
 
+KEYLOG: list = []
+
+
 def key_e(v):
+    KEYLOG.append(getattr(v, "tag", "?") + ":ek")
     return v.ek
 
 
 def key_o(v):
+    KEYLOG.append(getattr(v, "tag", "?") + ":ok")
     return v.ok
 
 
 def key_c(v):
+    KEYLOG.append(getattr(v, "tag", "?") + ":ck")
     return v.ck
 
 
@@ -531,6 +549,16 @@ def _mk_values(f):
             ky = V(n + ":" + view, _mirror(f[pk]["s"]))
             _pair_up(getattr(X, view), ky)
             setattr(Y, view, ky)
+    hashes = f.get("hashes")
+    if hashes:
+        for side, val in (("x", X), ("y", Y)):
+            if side == "y" and val is X:
+                continue
+            val.hashv = hashes.get(side)
+            for view in VIEWS:
+                kv = getattr(val, view)
+                if side == "x" or kv is not getattr(X, view):
+                    kv.hashv = hashes.get(side)
     truth = f.get("truth")
     if truth:
         # falsy (or bool()-raising) raw values and key results: e.g. order=len on "", order=lambda v: v % 3
@@ -552,7 +580,8 @@ _Q_OTHER = {"lt": "other", "le": "other", "gt": "other", "ge": "other"}
 def _failed(cls_err, field_errs):
     return {"clsErr": cls_err, "fieldErrs": field_errs, "built": False,
             "status": {o: "dflt" for o in OPS}, "direct": dict(_Q_OTHER), "trace": {o: [] for o in OPS},
-            "ops": dict(_Q_OTHER), "rops": dict(_Q_OTHER), "residue": []}
+            "ops": dict(_Q_OTHER), "rops": dict(_Q_OTHER), "residue": [],
+            "keys": {o: [] for o in OPS}}
 
 
 def _status(C, Base, op):
@@ -574,6 +603,7 @@ def observe(case):
         return _failed(k if k in ("valueError", "typeError") else "typeError", ["!observe"])
     finally:
         del LOG[:]
+        del KEYLOG[:]
 
 
 VIEWS = ("ek", "ok", "ck")
@@ -711,12 +741,14 @@ def _observe(case):
                 y = _transform(y, hist["kind"], yv)
     obs = {"clsErr": "ok", "fieldErrs": [], "built": True,
            "status": {op: _status(C, Base, op) for op in OPS},
-           "direct": {}, "trace": {}, "ops": {}, "rops": {}}
+           "direct": {}, "trace": {}, "ops": {}, "rops": {}, "keys": {}}
     for op in OPS:
         meth = getattr(C, DUNDER[op])
         del LOG[:]
+        del KEYLOG[:]
         obs["direct"][op] = call(lambda: meth(x, y))
         obs["trace"][op] = list(LOG)
+        obs["keys"][op] = list(KEYLOG)
         obs["ops"][op] = call(lambda: PYOP[op](x, y))
         obs["rops"][op] = call(lambda: PYOP[op](y, x))
     # ---- comparing leaves nothing behind on the instances
@@ -772,6 +804,8 @@ def dist(case, obs):
         "falsy_keys": sum(1 for f in case["fields"] if f.get("truth") and any(
             v != "T" for side in f["truth"].values() for k, v in side.items() if k != "raw")),
         "redef": sum(1 for f in case["fields"] if f.get("redef")),
+        "hashes": "/".join(sorted({str(v) for f in case["fields"] for v in (f.get("hashes") or {}).values()})) or "-",
+        "key_calls_lt": len((o.get("keys") or {}).get("lt", [])),
         "opts": "+".join(sorted({k for f in case["fields"] for k, v in (f.get("opts") or {}).items()})) or "-",
         "hist_who": (case.get("hist") or {}).get("who"),
         "frozen": bool(cfg.get("frozen") or cfg.get("frozen_base")),
@@ -957,12 +991,20 @@ def _rand_opts(rng):
     return o
 
 
+HASH_MODES = [None, "id", "id", 1, 1, 2]
+
+
+def _rand_hashes(rng):
+    """how hash() behaves on each operand's value: unhashable, by identity, or a number shared with other values"""
+    return {"x": rng.choice(HASH_MODES), "y": rng.choice(HASH_MODES)}
+
+
 def _rand_truth(rng):
     """what bool() does on the raw value and on the key results of each operand's value"""
     return {side: {k: rng.choice(TRUTHS) for k in ("raw", "ek", "ok")} for side in ("x", "y")}
 
 
-def _decorate(rng, c, p_truth=0.35, p_pre=0.3, p_redef=0.3, p_opts=0.3):
+def _decorate(rng, c, p_truth=0.35, p_pre=0.3, p_redef=0.3, p_opts=0.3, p_hash=0.4):
     """harness-only dimensions of a case: truthiness of values / key results, earlier comparisons in the class
     family, base-class definitions that C overrides"""
     fs = []
@@ -970,6 +1012,7 @@ def _decorate(rng, c, p_truth=0.35, p_pre=0.3, p_redef=0.3, p_opts=0.3):
         f = dict(f)
         f["truth"] = _rand_truth(rng) if rng.random() < p_truth else None
         f["opts"] = _rand_opts(rng) if rng.random() < p_opts else None
+        f["hashes"] = _rand_hashes(rng) if rng.random() < p_hash else None
         f["redef"] = None
         if not f["inBase"] and rng.random() < p_redef:
             r = rng.choice(REDEFS)
@@ -1123,7 +1166,7 @@ def _gen_operands(tier, rng):
 
 
 def _gen_random(tier, rng):
-    n = 2000 if tier == "quick" else 600000
+    n = 1000 if tier == "quick" else 600000
     for _ in range(n):
         malformed = rng.random() < 0.12
         k = rng.choice([1, 2, 3, 3, 4, 5])
@@ -1230,6 +1273,31 @@ def _gen_opts(tier, rng):
                     yield c
 
 
+def _gen_memo(tier, rng):
+    """hashable values and key functions: nothing may be remembered about a value between comparisons, nor shared
+    between values that are equal or hash alike -- values hashable by identity whose key results change between
+    comparisons, distinct values with one hash (as 1 / True / 1.0) whose keys differ, on one class, with and
+    without an earlier life; the key of every keyed field is applied to both operands on every call"""
+    reps = 1 if tier == "quick" else 8
+    shapes = [{"order": "key"}, {"eq": "key"}, {"cmp": "key"}, {"eq": "key", "order": "key"}, {"inBase": True, "order": "key"}]
+    hists = [None, ("rekey", "x"), ("rekey", "both"), ("rebind", "both"), ("rebind", "y"), ("evolve", "both"), ("copy", "x")]
+    for sh in shapes:
+        for hist in hists:
+            for hx, hy in (("id", "id"), (1, 1), (1, 2), ("id", None), (1, "id")):
+                for _ in range(reps):
+                    k = rng.choice([1, 1, 2])
+                    j = rng.randrange(k)
+                    bias = rng.choice([0.3, 0.7])
+                    fields = [_plain_field(rng, NAMES[i], eq_bias=bias, **(sh if i == j else {})) for i in range(k)]
+                    c = _case(rng, fields, rhs=rng.choice(["same", "same", "same", "same", "identical"]), block="memo")
+                    _decorate(rng, c, p_truth=0.1, p_pre=0.1, p_redef=0.1, p_opts=0.1, p_hash=0.0)
+                    for f in c["fields"]:
+                        f["hashes"] = {"x": hx, "y": hy}
+                    if hist:
+                        c["hist"] = _rand_hist(rng, c["fields"], hist[0], hist[1], eq_bias=bias)
+                    yield c
+
+
 def _gen_truth(tier, rng):
     """key functions whose RESULT is falsy (order=len on "", order=lambda v: v % 3 ...) or whose bool() raises,
     and falsy raw values: the keyed object is still the one compared"""
@@ -1240,6 +1308,8 @@ def _gen_truth(tier, rng):
         for tx in itertools.product(["T", "F", "raises"], repeat=2):
             for ty in itertools.product(["T", "F", "raises"], repeat=2):
                 for _ in range(reps):
+                    if tier == "quick" and rng.random() < 0.4:
+                        continue
                     k = rng.choice([1, 2, 2, 3])
                     j = rng.randrange(k)
                     fields = [_plain_field(rng, NAMES[i], eq_bias=0.5 if i == j else 0.8, **(sh if i == j else {})) for i in range(k)]
@@ -1254,6 +1324,7 @@ def gen_cases(tier, rng):
     yield from _gen_field_table(tier, rng)
     yield from _gen_positions(tier, rng)
     yield from _gen_opts(tier, rng)
+    yield from _gen_memo(tier, rng)
     yield from _gen_operands(tier, rng)
     yield from _gen_history(tier, rng)
     yield from _gen_family(tier, rng)
@@ -1281,7 +1352,7 @@ def shrink(case):
         for i in range(len(case["pre"])):
             yield dict(case, pre=case["pre"][:i] + case["pre"][i + 1:])
     for i, f in enumerate(fs):
-        for k in ("truth", "redef", "opts"):
+        for k in ("truth", "redef", "opts", "hashes"):
             if f.get(k):
                 yield dict(case, fields=fs[:i] + [dict(f, **{k: None})] + fs[i + 1:])
     h = case.get("hist")
@@ -1334,6 +1405,10 @@ def neighbours(case, rng):
         yield dict(case, pre=list(pre), rhs="same")
     for _ in range(6):
         yield dict(case, fields=[dict(f, truth=_rand_truth(rng)) for f in fs], rhs="same")
+    for hx, hy in (("id", "id"), (1, 1), (1, 2)):
+        for kind, who in (("rekey", "both"), ("rebind", "both"), (None, None)):
+            yield dict(case, fields=[dict(f, hashes={"x": hx, "y": hy}) for f in fs], rhs="same",
+                       hist=_rand_hist(rng, fs, kind, who) if kind else None)
     for opt in OPT_SINGLES:
         for i, f in enumerate(fs):
             yield dict(case, fields=fs[:i] + [dict(f, opts=dict(opt))] + fs[i + 1:], rhs="same")
@@ -1368,6 +1443,8 @@ LEVEL_TEXT = (
     "before with other values, then key results / fields changed behind them or via assoc/evolve/copy; nothing may be left on the "
     "instances or classes), class-family histories (ancestor/sibling/subclass compared first; overriding redefinitions), and "
     "falsy / bool()-raising key results, per-field options unrelated to ordering (kw_only, init, alias, repr, hash, metadata, "
-    "converter, validator, default; own and inherited fields). CPython's tuple comparison and "
+    "converter, validator, default; own and inherited fields), scripted hashability of values (identity / colliding / none) "
+    "and the key-function applications per call (C09_keys_every_comparison: every keyed order field's key, both operands, every "
+    "call, no memory). CPython's tuple comparison and "
     "rich-comparison dispatch are modelled as small functions and observed, not proved; values' reflected comparisons are assumed "
     "to agree (y-side scripted values answer with the mirror script). Exception classes (auto_exc) and redefined fields are not varied.")
